@@ -280,6 +280,29 @@ pub fn run_shapes(out: &mut Out, tier: &str, rng: &mut Rng) {
         json!({"PathBuf": "string", "Timestamp": "number"}),
         json!({"Uuid": "string", "Timestamp": "Date", "Flag": "boolean"}),
     ];
+    // deep chains (7 to 12 container levels around a named type / a primitive), every constructor mix
+    for d in 7..=12usize {
+        for (wi, inner) in [RTy::Named("User".into()), RTy::Prim("u8".into()), RTy::Tup(vec![RTy::Prim("i32".into()), RTy::Named("Mode".into())])].iter().enumerate() {
+            let mut t = inner.clone();
+            for k in 0..d {
+                t = match (k + wi) % 4 {
+                    0 => RTy::Vec(Box::new(t)),
+                    1 => RTy::Opt(Box::new(t)),
+                    2 => RTy::HMap(Box::new(RTy::Prim("String".into())), Box::new(t)),
+                    _ => RTy::Vec(Box::new(t)),
+                };
+            }
+            out.case("shape", json!({"rty": t.to_json(), "mappings": {}}), json!({"gen": "deep", "depth": d}));
+        }
+    }
+    // mapping keys that are whole container expressions, on members declared with exactly that type (and nested in others)
+    let container_table = json!({"Vec<u8>": "string", "Option<Uuid>": "string", "HashMap<String, u8>": "number", "(u8, u8)": "string"});
+    let b = |t: &RTy| Box::new(t.clone());
+    let u8t = RTy::Prim("u8".into());
+    for t in [RTy::Vec(b(&u8t)), RTy::Opt(Box::new(RTy::Named("Uuid".into()))), RTy::HMap(Box::new(RTy::Prim("String".into())), b(&u8t)),
+        RTy::Tup(vec![u8t.clone(), u8t.clone()]), RTy::Vec(Box::new(RTy::Vec(b(&u8t)))), RTy::Opt(Box::new(RTy::Vec(b(&u8t))))] {
+        out.case("shape", json!({"rty": t.to_json(), "mappings": container_table}), json!({"gen": "container-keys"}));
+    }
     let n = if tier == "thorough" { 30000 } else { 2500 };
     for i in 0..n {
         let depth = 1 + rng.below(6);
@@ -328,6 +351,22 @@ pub fn run(out: &mut Out, tier: &str, rng: &mut Rng) {
                 out.case("site", json!({"rty": t.to_json(), "site": site, "mode": "ts", "mappings": {}}), json!({"gen": "stdnames"}));
                 if *site == "param" || *site == "field" {
                     out.case("site", json!({"rty": t.to_json(), "site": site, "mode": "zod", "mappings": {}}), json!({"gen": "stdnames"}));
+                }
+            }
+        }
+    }
+    // 2d. references inside constructors (`Vec<&Preset>`, `Option<&String>`, map values, tuple elements)
+    {
+        let b = |t: &RTy| Box::new(t.clone());
+        let user = RTy::Named("User".into());
+        let rs = |t: &RTy| RTy::Ref(Box::new(t.clone()));
+        for t in [RTy::Vec(Box::new(rs(&user))), RTy::Opt(Box::new(rs(&RTy::Prim("String".into())))), RTy::HMap(Box::new(rs(&RTy::Prim("str".into()))), Box::new(rs(&user))),
+            RTy::Tup(vec![rs(&RTy::Prim("str".into())), rs(&RTy::Prim("u32".into()))]), RTy::Vec(Box::new(RTy::Opt(Box::new(rs(&user))))), RTy::Res2(Box::new(RTy::Vec(Box::new(rs(&user)))), b(&RTy::Prim("String".into()))),
+            RTy::Opt(Box::new(rs(&RTy::Vec(b(&user))))), rs(&rs(&user))] {
+            for site in SITES {
+                out.case("site", json!({"rty": t.to_json(), "site": site, "mode": "ts", "mappings": {}}), json!({"gen": "nested-refs"}));
+                if *site == "param" || *site == "field" {
+                    out.case("site", json!({"rty": t.to_json(), "site": site, "mode": "zod", "mappings": {}}), json!({"gen": "nested-refs"}));
                 }
             }
         }
